@@ -31,19 +31,19 @@ OfCat(seq, c) == SelectSeq(seq, LAMBDA r : CatOf[r] = c)
 Min(a, b) == IF a < b THEN a ELSE b
 
 Init ==
-    /\ mode \in {"explicit", "lookup"}
+    /\ mode \in {"explicit", "lookup", "lookupall"}     \* lookupall: lookup that does not skip incomplete recordings
     /\ failing \in SUBSET Cats
     /\ edited \in {e \in SUBSET Cats : Cardinality(e) <= MaxEdited}
     /\ limit \in Limits
     /\ (mode = "explicit" => limit = 0)
     /\ order \in UNION {Perms(S) : S \in (SUBSET Recs) \ {{}}}
-    /\ (mode = "lookup" => order = [k \in 1 .. Cardinality(Recs) |-> k])     \* lookup returns them in save order
+    /\ (mode # "explicit" => order = [k \in 1 .. Cardinality(Recs) |-> k])     \* lookup returns them in save order
     /\ todo = [c \in Cats |-> <<>>] /\ played = <<>> /\ started = <<>> /\ pc = "init"
 
 \* what each category's stream will deliver
 Selected(c) ==
     IF mode = "explicit" THEN OfCat(order, c)
-    ELSE LET all == SelectSeq(order, LAMBDA r : CatOf[r] = c /\ r \notin Incomplete) IN
+    ELSE LET all == SelectSeq(order, LAMBDA r : CatOf[r] = c /\ (r \notin Incomplete \/ mode = "lookupall")) IN
          IF limit = 0 THEN all ELSE SubSeq(all, 1, Min(limit, Len(all)))
 
 Play ==
@@ -79,5 +79,5 @@ FailureIsLocal == \A k \in 1 .. Len(played) : CatOf[played[k].rec] \notin failin
 \* regression detection end to end: exactly the recordings of changed code (and the cut-short ones) differ
 VerdictsExact == \A k \in 1 .. Len(played) :
     (played[k].verdict = "Different") <=> (CatOf[played[k].rec] \in edited \/ played[k].rec \in Incomplete)
-LookupStaysInCategory == mode = "lookup" => \A c \in Cats : \A k \in 1 .. Len(Selected(c)) : CatOf[Selected(c)[k]] = c
+LookupStaysInCategory == mode # "explicit" => \A c \in Cats : \A k \in 1 .. Len(Selected(c)) : CatOf[Selected(c)[k]] = c
 =============================================================================
